@@ -268,10 +268,10 @@ Section Total.
       + intros r. destruct (ci_from_word c); [|discriminate]. intros [= <-]. apply fn_total.
       + intros f [= <-] l. exact (Tl l).
     - (* a newtype struct *)
-      destruct (IH W) as [Tm _]. split.
+      destruct (IH W) as [Tm Tl]. split.
       + intros m M. unfold from_meta. cbn [impl_of o_meta].
         rewrite is_panic_map_ok, map_err_panic. now apply Tm.
-      + intros l. reflexivity.
+      + intros l. unfold from_list at 1. cbn [impl_of o_list]. rewrite is_panic_map_ok. apply Tl.
     - (* a unit struct *)
       split; [|reflexivity]. intros m M. unfold from_meta. cbn [impl_of o_meta].
       apply default_from_meta_total; [|exact M]. unfold hooks_total. cbn. repeat split; try discriminate. intros r [= <-]. reflexivity.
